@@ -514,6 +514,8 @@ func checkC16(c *Ctx) string {
 		c.Floor(r4, nst, 1, "element stores into Info.Deltas in Apply1 implementations")
 	}
 
+	checkPersistAsksOverlay(c, "C16.5 K4c persist saves a table exactly when its overlay reports unsaved changes")
+	checkDrainKeepsMessages(c, "C16.6 K5 the merger never drops a queued commit")
 	return "Static shape of background merge/persist: Database.Merge and persist each have one UpdateState whose callback applies (meta.Apply) the result of the computation to m := *state.Meta of the " +
 		"callback's own state and publishes &m (persist: then writes the state inside the callback and records its offset); the computation reads GetState().Meta; by-effect K12 summaries show that " +
 		"Meta.Merge/Persist, Overlay.Merge/Save/WithMerged/WithSaved, ixbuf.Merge, btree.MergeAndSave, mergeSingle and execMulti.merge do not write through the meta/overlay/ixbuf they are given; " +
